@@ -7,7 +7,7 @@ _SIM = ["TCP (simnet: seeded segmentation, latency, short reads, send window)", 
 _SAMPLING = "sampling: a clean batch is evidence about the schedules, faults and histories drawn, not proof"
 _TECH = "deterministic simulation with fault injection"
 
-HOOK_COMMITS = ["9a83a6c", "8078797", "77dc71d"]
+HOOK_COMMITS = ["9a83a6c", "8078797", "77dc71d", "1287812"]
 
 NOT_APPLICABLE = {
     "C08": "pure function of the ad text (differential decode test); no schedule, clock, peer or fault to simulate",
